@@ -14,7 +14,7 @@ from harness.common import qlit, zlit, listlit, float_lit
 from harness import exact as X
 from harness.c03 import bcast_elems, _same
 
-VFILES = ['Lib/PySlice.v', 'Lib/Dft.v', 'Lib/DftC.v', 'Lib/F64.v', 'Model/Shift.v', 'Proofs/ShiftProofs.v', 'Proofs/ShiftC.v', 'Props/C04.v']
+VFILES = ['Lib/PySlice.v', 'Lib/Dft.v', 'Lib/DftC.v', 'Lib/F64.v', 'Model/Shift.v', 'Proofs/ShiftProofs.v', 'Gen/GenShift.v', 'Proofs/ShiftGen.v', 'Proofs/ShiftC.v', 'Props/C04.v']
 REAL_AX = {'ClassicalDedekindReals.sig_forall_dec', 'ClassicalDedekindReals.sig_not_dec',
            'FunctionalExtensionality.functional_extensionality_dep', 'Classical_Prop.classic'}
 
